@@ -9,7 +9,7 @@
 #include <sys/syscall.h>
 #include <dirent.h>
 
-static time_t g_now=1000000; extern "C" time_t time(time_t *t){ if(t) *t=g_now; return g_now; }
+static time_t T0=1000000; /* base of the virtual clock; the epoch2039 sub-pass sets it beyond 2^31 */ static time_t g_now=1000000; extern "C" time_t time(time_t *t){ if(t) *t=g_now; return g_now; }
 struct W { std::string bytes; long off; }; static bool g_log=false; static std::vector<W> g_writes; static int g_fail_after=-1;
 extern "C" ssize_t write(int fd,const void *buf,size_t n){ if(g_log&&fd>2){ W w; w.bytes.assign((const char*)buf,n); w.off=syscall(SYS_lseek,fd,0L,SEEK_CUR); g_writes.push_back(w); } return syscall(SYS_write,fd,buf,n); }
 
@@ -36,22 +36,22 @@ static void bad(const std::string &sig,const std::string &what,const std::string
 // one recovery of one crash state. saves = every save of the history (incl. the in-flight one).
 static uint64_t n_states=0;
 static void recover(bool present,const std::string &bytes,const std::vector<Save> &saves,const std::string &cs,bool flock){ n_states++;
-	time_t clocks[8]; int nc=0; clocks[nc++]=1000000; for(size_t i=0;i<saves.size();i++){ time_t d=saves[i].deadline; bool dup=false; for(int q=0;q<nc;q++) if(clocks[q]==d+1) dup=true; if(!dup&&nc<7){ clocks[nc++]=d+1; } } { bool dup=false; time_t d=saves.back().deadline; for(int q=0;q<nc;q++) if(clocks[q]==d) dup=true; if(!dup) clocks[nc++]=d; }
+	time_t clocks[8]; int nc=0; clocks[nc++]=T0; for(size_t i=0;i<saves.size();i++){ time_t d=saves[i].deadline; bool dup=false; for(int q=0;q<nc;q++) if(clocks[q]==d+1) dup=true; if(!dup&&nc<7){ clocks[nc++]=d+1; } } { bool dup=false; time_t d=saves.back().deadline; for(int q=0;q<nc;q++) if(clocks[q]==d) dup=true; if(!dup) clocks[nc++]=d; }
 	for(int ci=0;ci<nc;ci++){ int verdict_a=-1; std::string data_a; time_t dl_a=0;
-		for(int script=0;script<3;script++){ vf::eval(); g_now=clocks[ci]; put_file(present,bytes); std::string pre=cs+" clock="+std::to_string((long)(g_now-1000000))+" script="+std::to_string(script);
+		for(int script=0;script<3;script++){ vf::eval(); g_now=clocks[ci]; put_file(present,bytes); std::string pre=cs+" clock="+std::to_string((long)(g_now-T0))+" script="+std::to_string(script);
 			session_file_storage st(g_dir,1,flock?2:1,flock); // a fresh storage object = the process after restart
 			int64_t stamp=0; bool stamp_ok= present&&bytes.size()>=8; if(stamp_ok) memcpy(&stamp,bytes.data(),8); bool gc_should_keep= stamp_ok&&stamp>=g_now; bool boundary= stamp_ok&&stamp==g_now;
 			if(script==1){ st.gc(); if(present){ bool ex=exists(); if(ex!=gc_should_keep&&!boundary) bad(ex?"gc:kept-dead-file":"gc:removed-live-file","gc "+std::string(ex?"kept a file whose time stamp is unreadable or past":"removed a file whose time stamp is in the future"),pre); } }
 			time_t dl=0; std::string out="UNTOUCHED"; bool ok=false; try{ ok=st.load(SID,dl,out); }catch(std::bad_alloc const &){ vf::guard("bad_alloc_on_absurd_size"); continue; }catch(std::exception const &e){ bad("load:throws","load throws "+std::string(e.what()),pre); continue; }
 			if(ok){ bool match=false; for(size_t i=0;i<saves.size();i++) if(saves[i].deadline==dl&&saves[i].data==out) match=true; if(!match){ bool data_known=false,dl_known=false; for(size_t i=0;i<saves.size();i++){ if(saves[i].data==out) data_known=true; if(saves[i].deadline==dl) dl_known=true; }
-					if(data_known&&dl_known) vf::guard("info_data_and_deadline_from_different_saves"); else bad(std::string("load:")+(data_known?"foreign-deadline":"corrupted-data"),"load returned "+std::string(data_known?"a deadline that no save of the history wrote":"data that no save of the history wrote")+": deadline "+std::to_string((long)(dl-1000000))+", "+std::to_string(out.size())+" bytes",pre); }
+					if(data_known&&dl_known) vf::guard("info_data_and_deadline_from_different_saves"); else bad(std::string("load:")+(data_known?"foreign-deadline":"corrupted-data"),"load returned "+std::string(data_known?"a deadline that no save of the history wrote":"data that no save of the history wrote")+": deadline "+std::to_string((long)(dl-T0))+", "+std::to_string(out.size())+" bytes",pre); }
 				if(dl<g_now) bad("load:expired","load returned a session whose deadline is in the past",pre); if(!exists()) bad("load:removed-live","load succeeded but removed the file",pre); vf::guard("recovered_complete_value"); }
 			else { if(exists()) bad("load:kept-unreadable","load reported no session but left the file in place",pre); vf::guard("recovered_nothing"); }
 			if(script==0){ verdict_a=ok; data_a=out; dl_a=dl; }
 			else if(script==1){ if(!boundary&&((int)ok!=verdict_a||(ok&&(out!=data_a||dl!=dl_a)))) bad("gc:changes-outcome","gc before load changes what load returns (gc removed a live session or resurrected a dead one)",pre); }
 			if(script==2){ st.gc(); time_t dl2=0; std::string o2; bool ok2=st.load(SID,dl2,o2); if(ok2!=ok||(ok&&(o2!=out||dl2!=dl))) { if(!boundary) bad("gc:after-load","load / gc / load: the second load differs from the first",pre); } }
 			{ static uint64_t sc=0; if(vf::sample_tick(sc,30011)) vf::sample("{\"crash_state\":"+vf::jstr(pre)+",\"file_bytes\":"+std::to_string(present?(long)bytes.size():-1L)+",\"load\":"+(ok?"\"complete value of a save\"":"\"no session\"")+"}"); }
-			vf::outcome(std::string(ok?"T":"F")+std::to_string(out.size())+":"+std::to_string((long)(dl-1000000))+":"+std::to_string(script)); } }
+			vf::outcome(std::string(ok?"T":"F")+std::to_string(out.size())+":"+std::to_string((long)(dl-T0))+":"+std::to_string(script)); } }
 }
 
 // enumerate crash states of the last save on top of `old`
@@ -72,36 +72,39 @@ static void crash_states(bool old_present,const std::string &old,const std::vect
 		for(size_t o=0;o<opts[sct].size();o++){ choice[sct]=opts[sct][o]; rec(sct+1); } }; rec(0);
 }
 
-static void histories(int sh,int n,bool flock){ bool th=vf::thorough(); int kinds[]={0,1,2,3,4,5,6,7,8,9,10,11,12}; int nk=13; time_t dls[]={1000000-5,1000000+10,1000000+20}; int idx=0;
+static void histories(int sh,int n,bool flock){ bool th=vf::thorough(); int kinds[]={0,1,2,3,4,5,6,7,8,9,10,11,12}; int nk=13; time_t dls[]={T0-5,T0+10,T0+20}; int idx=0;
 	// history = [older (optional)] old (optional) -> new ; payload kinds x variants; deadlines
 	for(int hlen=1;hlen<=3;hlen++) for(int ko=0;ko<nk;ko++) for(int kn=0;kn<nk;kn++){ if(hlen==1&&ko!=0) continue; if(hlen==3&&!th&&(ko%3||kn%3)) continue; if(ko>=10||kn>=10){ /* big values: overwrite histories only, a fixed menu of pairs */ if(hlen!=2) continue; bool pair=(ko==kn)||(ko==10&&kn==12)||(ko==12&&kn==10)||(ko==3&&kn==10)||(ko==10&&kn==3)||(ko==11&&kn==10); if(!pair) continue; } for(int dn=0;dn<3;dn++) for(int dold=1;dold<3;dold++){ if(hlen==1&&dold!=1) continue; if((ko>=10||kn>=10)&&(dn!=2||dold!=1)) continue; if(!th&&hlen>1&&dn==0&&dold==2) continue;
-		if((idx++%n)!=sh) continue; std::vector<Save> saves; g_now=1000000;
-		if(hlen==3){ Save s; s.deadline=1000000+15; s.data=payload((ko+3)%10,2); saves.push_back(s); } if(hlen>=2){ Save s; s.deadline=dls[dold]; s.data=payload(kinds[ko],0); saves.push_back(s); }
+		if((idx++%n)!=sh) continue; std::vector<Save> saves; g_now=T0;
+		if(hlen==3){ Save s; s.deadline=T0+15; s.data=payload((ko+3)%10,2); saves.push_back(s); } if(hlen>=2){ Save s; s.deadline=dls[dold]; s.data=payload(kinds[ko],0); saves.push_back(s); }
 		{ Save s; s.deadline=dls[dn]+ (hlen>=2&&dls[dn]==dls[dold]? 1:0); s.data=payload(kinds[kn],1); if(kinds[kn]==9&&hlen>=2&&kinds[ko]==9) s.data=saves.back().data; if(kinds[kn]>=10) vf::guard("histories_with_values_over_4096_bytes"); saves.push_back(s); }
-		std::string cs="history:"; for(size_t i=0;i<saves.size();i++) cs+=" save("+std::to_string(saves[i].data.size())+"B#"+vf::hex(saves[i].data.substr(0,2))+",dl"+std::to_string((long)(saves[i].deadline-1000000))+")"; if(flock) cs+=" flock"; vf::announce(cs);
+		std::string cs="history:"; for(size_t i=0;i<saves.size();i++) cs+=" save("+std::to_string(saves[i].data.size())+"B#"+vf::hex(saves[i].data.substr(0,2))+",dl"+std::to_string((long)(saves[i].deadline-T0))+")"; if(flock) cs+=" flock"; vf::announce(cs);
 		// run the earlier saves for real, then the last one with the write log
 		unlink(fname().c_str()); { session_file_storage st(g_dir,1,flock?2:1,flock); for(size_t i=0;i+1<saves.size();i++) st.save(SID,saves[i].deadline,saves[i].data); }
 		std::string old; bool old_present=read_file(old); g_writes.clear(); { session_file_storage st(g_dir,1,flock?2:1,flock); g_log=true; st.save(SID,saves.back().deadline,saves.back().data); g_log=false; }
 		std::vector<W> w=g_writes; { std::string fin; read_file(fin); std::string exp=old; for(size_t c=0;c<w.size();c++) apply_w(exp,w[c],w[c].bytes.size()); if(fin!=exp){ fprintf(stderr,"harness error: write log does not reproduce the file (%zu vs %zu bytes)\n",fin.size(),exp.size()); vf::C().harness_error=true; return; } }
 		if(w.empty()||w[0].bytes.size()!=16||w[0].off!=0) vf::guard("info_header_not_first_write"); else vf::guard("header_first_write"); vf::guard("saves_logged");
 		// sanity: the completed save loads back
-		{ session_file_storage st(g_dir,1,1,false); time_t dl; std::string out; g_now=1000000; bool ok=st.load(SID,dl,out); bool want=saves.back().deadline>=g_now; if(ok!=want||(ok&&(out!=saves.back().data||dl!=saves.back().deadline))) bad("save-load","a completed save does not load back",cs); }
+		{ session_file_storage st(g_dir,1,1,false); time_t dl; std::string out; g_now=T0; bool ok=st.load(SID,dl,out); bool want=saves.back().deadline>=g_now; if(ok!=want||(ok&&(out!=saves.back().data||dl!=saves.back().deadline))) bad("save-load","a completed save does not load back",cs); }
 		crash_states(old_present,old,w,saves,cs,flock); } }
 }
 static void garbage(int sh,int n){ // well-formed names, arbitrary contents
-	std::vector<Save> none; Save s; s.deadline=1000000+50; s.data=payload(3,0); none.push_back(s); g_now=1000000; unlink(fname().c_str()); { session_file_storage st(g_dir,1,1,false); st.save(SID,s.deadline,s.data); } std::string good; read_file(good); int idx=0;
+	std::vector<Save> none; Save s; s.deadline=T0+50; s.data=payload(3,0); none.push_back(s); g_now=T0; unlink(fname().c_str()); { session_file_storage st(g_dir,1,1,false); st.save(SID,s.deadline,s.data); } std::string good; read_file(good); int idx=0;
 	for(size_t len=0;len<=20;len++){ if((idx++%n)!=sh) continue; recover(true,good.substr(0,len),none,"garbage short-file len="+std::to_string(len),false); std::string z(len,'\xff'); recover(true,z,none,"garbage ff-file len="+std::to_string(len),false); vf::guard("garbage_files"); }
 	uint32_t real_size; memcpy(&real_size,&good[12],4); uint32_t sizes[]={0,real_size-1,real_size+1,real_size+20,65536}; for(int i=0;i<5;i++){ if((idx++%n)!=sh) continue; std::string f=good; memcpy(&f[12],&sizes[i],4); recover(true,f,none,"garbage size-field="+std::to_string(sizes[i]),false); }
 	for(int d=-1;d<=1;d+=2){ if((idx++%n)!=sh) continue; std::string f=good; uint32_t crc; memcpy(&crc,&f[8],4); crc+=d; memcpy(&f[8],&crc,4); recover(true,f,none,"garbage crc"+std::to_string(d),false); }
-	{ int64_t dl[]={0,1000000-1,(int64_t)1<<62,-1}; for(int i=0;i<4;i++){ if((idx++%n)!=sh) continue; std::string f=good; memcpy(&f[0],&dl[i],8); std::vector<Save> sv=none; Save t=s; t.deadline=(time_t)dl[i]; sv.push_back(t); recover(true,f,sv,"garbage deadline-field#"+std::to_string(i),false); } }
+	{ int64_t dl[]={0,T0-1,(int64_t)1<<62,-1}; for(int i=0;i<4;i++){ if((idx++%n)!=sh) continue; std::string f=good; memcpy(&f[0],&dl[i],8); std::vector<Save> sv=none; Save t=s; t.deadline=(time_t)dl[i]; sv.push_back(t); recover(true,f,sv,"garbage deadline-field#"+std::to_string(i),false); } }
 	for(size_t pos=16;pos<good.size();pos+=61){ if((idx++%n)!=sh) continue; std::string f=good; f[pos]^=1; recover(true,f,none,"garbage bitflip@"+std::to_string(pos),false); }
 	if(sh==0&&vf::thorough()){ uint32_t huge[]={0x7fffffffu,0xffffffffu}; for(int i=0;i<2;i++){ std::string f=good; memcpy(&f[12],&huge[i],4); recover(true,f,none,"garbage size-field="+std::to_string(huge[i]),false); } }
 }
 
 int main(int argc,char **argv){ vf::init(argc,argv,"C18","fault_enumeration"); int n=16;
 	vf::C().rule="histories of 1..3 saves on one sid over 13 payload kinds (0,1,16,495,496,497,1100 bytes; 4500/5000/9000-byte values whose versions differ only in two places beyond byte 4096, overwritten in 9 old->new pairs; pairs differing only in the last sector / only in sector 0 / only in the deadline) x deadlines {past, future, later}; for the last save: every prefix of the write() call sequence and every byte prefix of the in-flight data call (process crash; the 16-byte header write is atomic), every assignment of {old, after-header, final} to sector 0 and {old, final} to each later 512-byte sector x every admissible file length (machine crash, no fsync is issued), absent/empty file; each recovered by a fresh storage object with scripts {load; gc,load; load,gc,load} under clocks {before, just after each deadline, exactly at the last one}; plus garbage files (every length 0..20, perturbed size/crc/deadline fields, bit flips). distinct = (load verdict, length, deadline, script); non-trivial = all";
-	vf::assume("the 16-byte header lies in sector 0 and a sector is written atomically; unwritten tail bytes read as zeros"); vf::assume("CRC-32 cannot prove absence of old/new mixtures for arbitrary payloads: the claim is for the enumerated payload pairs, each mixture actually constructed and loaded"); vf::assume("at now == deadline either verdict is accepted; concurrent access to one sid is not covered");
+	vf::assume("the 16-byte header lies in sector 0 and a sector is written atomically; unwritten tail bytes read as zeros"); vf::assume("CRC-32 cannot prove absence of old/new mixtures for arbitrary payloads: the claim is for the enumerated payload pairs, each mixture actually constructed and loaded"); vf::assume("a sub-pass repeats a quarter of the histories with the clock in 2039 (time_t beyond 2^31)"); vf::assume("at now == deadline either verdict is accepted; concurrent access to one sid is not covered");
 	if(!vf::C().replay_file.empty()) printf("replay: C18 cases are deterministic; re-running the quick tier reproduces the case named in the replay file\n");
+	if(vf::C().pass=="epoch2039"){ // the histories again (every 4th) with the clock beyond 2^31 seconds (year 2039): the deadline is stored in the file header
+		T0=(time_t)2200000000LL; g_now=T0; vf::parallel(n,n,[&](int sh){ g_dir=vf::scratch_dir()+"/sess39_"+std::to_string(sh); mkdir(g_dir.c_str(),0777); histories(sh*4+1,n*4,false); vf::guard("epoch2039_crash_states",n_states); std::string cmd="rm -rf '"+g_dir+"'"; if(system(cmd.c_str())){} },600); return vf::finish(); }
 	vf::parallel(n,n,[&](int sh){ g_dir=vf::scratch_dir()+"/sess"+std::to_string(sh); mkdir(g_dir.c_str(),0777); histories(sh,n,false); if(vf::thorough()) histories(sh,n,true); garbage(sh,n); vf::guard("crash_states",n_states); std::string cmd="rm -rf '"+g_dir+"'"; if(system(cmd.c_str())){} },vf::thorough()?1500:250);
-	vf::require_guard("process_crash_states"); vf::require_guard("machine_crash_states"); vf::require_guard("recovered_complete_value"); vf::require_guard("recovered_nothing"); vf::require_guard("saves_logged"); vf::require_guard("garbage_files"); vf::require_guard("histories_with_values_over_4096_bytes");
+	vf::run_sub("asan","epoch2039");
+	vf::require_guard("process_crash_states"); vf::require_guard("epoch2039_crash_states"); vf::require_guard("machine_crash_states"); vf::require_guard("recovered_complete_value"); vf::require_guard("recovered_nothing"); vf::require_guard("saves_logged"); vf::require_guard("garbage_files"); vf::require_guard("histories_with_values_over_4096_bytes");
 	return vf::finish(); }
